@@ -194,6 +194,26 @@ func ruleR20b(c *Ctx, r *Report) {
 		})
 		r.Check(bad == "", key, c.Pos(put.Pos()), "writer().Put(ctx, key, content) with the parameters unchanged", bad)
 	}
+	{
+		// once: a second hand-over behind the first (a retry) writes the section again behind whatever
+		// part of it the failed attempt got out, which a directly constructed writer never does
+		key := "delegation-once@" + fnKey(put)
+		var dels []*ssa.Call
+		eachInstr(put, func(in ssa.Instruction) {
+			if ci, ok := in.(*ssa.Call); ok && ci.Common().IsInvoke() && ci.Common().Method.Name() == "Put" && len(ci.Common().Args) == 3 {
+				dels = append(dels, ci)
+			}
+		})
+		bad := ""
+		for _, a := range dels {
+			for _, b := range dels {
+				if (a != b && instrReaches(a, b)) || (a == b && blockReaches(a.Block(), a.Block()) && inLoopWith(a.Block())) {
+					bad = fmt.Sprintf("the hand-over at %s can be followed by the one at %s in the same call", c.Pos(a.Pos()), c.Pos(b.Pos()))
+				}
+			}
+		}
+		r.Check(bad == "", key, c.Pos(put.Pos()), "a Put hands its block to the underlying writer at most once", bad+": a section goes out in several writes, so a repeated hand-over leaves the fragment of the failed attempt in front of the section — the output is no longer what a directly constructed writer produces for the same puts (it reports the error)")
+	}
 	wfn, err := c.Func(pkgDeferred, "DeferredCarWriter", "writer")
 	if err != nil {
 		r.InfraFail("%v", err)
@@ -665,4 +685,23 @@ func ruleR20r(c *Ctx, r *Report) {
 		return
 	}
 	r.Check(len(bad) == 0, key, "-", "roots, options, path and stream are stored on the freshly allocated object only", strings.Join(bad, "; ")+": the archive that goes out no longer has the roots and options the writer was constructed with — a directly constructed writer given the same roots writes another header")
+}
+
+// inLoopWith: the block lies on a cycle of the control-flow graph.
+func inLoopWith(b *ssa.BasicBlock) bool {
+	seen := map[*ssa.BasicBlock]bool{}
+	work := append([]*ssa.BasicBlock(nil), b.Succs...)
+	for len(work) > 0 {
+		x := work[len(work)-1]
+		work = work[:len(work)-1]
+		if x == b {
+			return true
+		}
+		if seen[x] {
+			continue
+		}
+		seen[x] = true
+		work = append(work, x.Succs...)
+	}
+	return false
 }
